@@ -128,6 +128,7 @@ def execute(program, ch: Chooser) -> Result:  # noqa: C901, PLR0912, PLR0915
     metrics_box: dict = {}
     spawned: list = []
     gen_err = GenErr("gen")
+    cleanup: list = []
 
     def gen_probe(where: str) -> None:
         inside.append([where, _state_token(tags)])
@@ -137,32 +138,35 @@ def execute(program, ch: Chooser) -> Result:  # noqa: C901, PLR0912, PLR0915
         yield "n0"
 
     async def source():
-        gen_probe("start")
-        for i in range(k):
-            if feature == "scope":
-                async with ctx.scope("gen-inner"):
-                    gen_probe(f"item{i}-in-scope")
-                    yield i
-            elif feature == "record":
-                ctx.record(StreamMetric(n=i))
-                yield i
-            elif feature == "spawn":
+      try:
+          gen_probe("start")
+          for i in range(k):
+              if feature == "scope":
+                  async with ctx.scope("gen-inner"):
+                      gen_probe(f"item{i}-in-scope")
+                      yield i
+              elif feature == "record":
+                  ctx.record(StreamMetric(n=i))
+                  yield i
+              elif feature == "spawn":
 
-                async def child():
-                    return 1
+                  async def child():
+                      return 1
 
-                spawned.append(ctx.spawn(child))
-                yield i
-            elif feature == "nested":
-                async for x in ctx.stream(inner_source):
-                    inside.append(["nested-item", x])
-                yield i
-            else:
-                yield i
-            gen_probe(f"after-item{i}")
-        gen_probe("end")
-        if end == "error":
-            raise gen_err
+                  spawned.append(ctx.spawn(child))
+                  yield i
+              elif feature == "nested":
+                  async for x in ctx.stream(inner_source):
+                      inside.append(["nested-item", x])
+                  yield i
+              else:
+                  yield i
+              gen_probe(f"after-item{i}")
+          gen_probe("end")
+          if end == "error":
+              raise gen_err
+      finally:
+          cleanup.append(len(inside))
 
     def fp(where: str) -> None:
         consumer_fp.append([where, _state_token(tags), _log_token()])
@@ -193,6 +197,7 @@ def execute(program, ch: Chooser) -> Result:  # noqa: C901, PLR0912, PLR0915
                     else:
                         await closer()
                         outcome_box["out"] = "closed"
+                        outcome_box["cleanup_at_close"] = bool(cleanup)
                 else:
                     outcome_box["out"] = "abandoned"
                 del it
@@ -277,6 +282,12 @@ def execute(program, ch: Chooser) -> Result:  # noqa: C901, PLR0912, PLR0915
                 viols.append(
                     viol("a-items", placement, [list(range(n_expected)), want_out], [got_items, outcome_box.get("out")])
                 )
+        if mode[0] == "aclose" and outcome_box.get("out") == "closed" and not outcome_box.get("cleanup_at_close"):
+            viols.append(
+                viol("d-closed-means-finalised", placement, "generator finalised when aclose() returns", "generator still suspended")
+            )
+        if mode[0] == "full" and outcome_box.get("out") in ("end", "error") and len(cleanup) != 1:
+            viols.append(viol("d-closed-means-finalised", f"exhausted/{placement}", 1, len(cleanup)))
         # (b) the generator body sees the creation environment
         want_inside = ["inst", "A#1"] if created == "in-scope" else ["constructed"]
         for where, tok in inside:
